@@ -9,6 +9,7 @@ from vt.oracles import prem
 
 PROPERTY = "C15"
 TITLE = "Earth density and slant depth"
+TECHNIQUE = ('runtime monitoring: density and slant_depth executions decided by independently typed PREM/CMC tables and an adaptive quadrature of the chord integral with a per-case discretisation bound; metamorphic relations (azimuth, direction length, step, dip)')
 ANCHORS = ["pyrex.earth_model:PREM.density", "pyrex.earth_model:PREM.slant_depth"]
 RULE = ("one case = one chord (model PREM or CoreMantleCrust, endpoint depth 0..3 km or above the surface, any x,y "
         "up to 1e6 m, direction class random/near-tangential/vertical-down/vertical-up/skimming, non-unit direction "
